@@ -54,6 +54,7 @@ def bias(y_pred, y_test):
         The mean bias in percent.
 
     """
+    y_pred, y_test = np.ravel(y_pred), np.ravel(y_test)
     return np.mean(100.0 * (y_pred - y_test) / y_test)
 
 
